@@ -49,7 +49,7 @@ AnswerOK(S, a) ==
     /\ IF ~a.ok
        THEN /\ "KF_C29_DeletedStillIndexed" \in S
             /\ a.via = "cypher"
-            /\ \E e \in DeadOf(key) : e.id \notin Live
+            /\ IsExact(key) /\ MayNameMissingNode(S, key, a.q, a.k)
        ELSE SearchOKUnder(S, key, a.q, a.k, a.res)
 
 T_Searches ==
